@@ -122,7 +122,8 @@ def run_campaign(prop_name, prop, test_idx, test, src, seed, runs, procs=8, time
         if k % 2 == 1:
             seed_corpus(corpus, test, seed * 1000 + k)
         lf = [corpus, f"-runs={runs}", f"-seed={(seed * 7919 + k) % (2**31 - 2) + 1}", f"-max_len={test.tape + 2}",
-              "-timeout=60", "-rss_limit_mb=4096", "-print_final_stats=1", "-verbosity=0", "-len_control=0"]
+              "-timeout=60", "-rss_limit_mb=4096", "-print_final_stats=1", "-verbosity=0", "-len_control=0",
+              f"-artifact_prefix={out}/"]
         env = dict(os.environ)
         env["PYTHONPATH"] = DEPS + os.pathsep + VERIF
         env["PYTHONHASHSEED"] = "0"
